@@ -1024,9 +1024,14 @@ func VfCrash() {
 func VfInterleave() {
 	vfWorld()
 	zzvfos.M.OTmpfile = zzvf.Choice("otmpfile_supported", 2) == 1
-	p := vfNewPosix(vfConfig{})
-	q := vfNewPosix(vfConfig{}) // the other request may be served by another gateway process
+	// the bucket is plain or has versioning enabled (an overwrite then first saves the current version)
+	icfg := vfConfig{versioning: zzvf.Choice("versioned_bucket", 2) == 1}
+	p := vfNewPosix(icfg)
+	q := vfNewPosix(icfg) // the other request may be served by another gateway process
 	vfMustBucket(p, "bkt")
+	if icfg.versioning {
+		zzvf.Assert(p.PutBucketVersioning(vfCtx(), "bkt", types.BucketVersioningStatusEnabled) == nil, "setup-enable-versioning")
+	}
 	key := "k"
 	one := int64(1)
 	oldBody := []byte("O")
@@ -1098,8 +1103,12 @@ func VfInterleave() {
 	writer2 := func() {
 		_, w2Err = p.PutObject(vfCtx(), s3response.PutObjectInput{Bucket: vfStr("bkt"), Key: &key, Body: bytes.NewReader(body2), ContentLength: &one})
 	}
-	at := zzvf.Choice("at_step", 40)
-	zzvf.Bound("steps_max", 40)
+	maxSteps := 40
+	if icfg.versioning {
+		maxSteps = 80 // saving the current version adds steps to every writer
+	}
+	at := zzvf.Choice("at_step", maxSteps)
+	zzvf.Bound("steps_max", 80)
 	start := zzvfos.M.Steps
 	fired := false
 	var wErr error
